@@ -161,7 +161,10 @@ func (w *c48World) file(ents []c48Ent) {
 func (w *c48World) storepack(ents []c48Ent) {
 	order, by := w.blobs(ents)
 	for _, p := range order {
-		w.mi.storePack(w.pack(p), by[p])
+		// StorePack adds the pack to the non-final index (the index is never "full" here, nothing is saved)
+		if err := w.mi.StorePack(context.Background(), w.pack(p), by[p], c48Saver{}); err != nil {
+			panic(err)
+		}
 	}
 }
 
@@ -265,9 +268,6 @@ func (w *c48World) apply(st *c48Step, last bool) {
 		st.Ent[t] = len(w.mi.Lookup(w.h[t]))
 	}
 	st.Ovfl = map[string]int{}
-	for _, n := range w.names {
-		st.Ovfl[n] = len(w.sets[n].overflow)
-	}
 	st.Obs = w.observe(only)
 }
 
